@@ -5,14 +5,25 @@ class C14(Spec):
     prop = "C14"
     drv = "drv_c14"
     harness = "h_c14"
-    required_theorems = ("C14.del_after_add_id_plugins", "C14.del_after_add_id_coins", "C14.del_after_add_id_block",
-                         "C14.regression_coins_failed_transfer", "C14.heightstr_injective", "C14.mvcc_del_after_add_id")
+    required_theorems = ("C14.del_after_add_id_plugins_key", "C14.del_after_add_id_plugins_except_stx",
+                         "C14.del_after_add_id_plugins_partial", "C14.plugins_full_false", "C14.del_after_add_id_coins",
+                         "C14.del_after_add_id_block_partial", "C14.regression_coins_failed_transfer",
+                         "C14.heightstr_injective", "C14.mvcc_del_after_add_id")
+    partial = ("C14.del_after_add_id_plugins_partial: also the 8-byte short-hash keys STX:hash[:8] of the block's transactions "
+               "are unused (no on-chain transaction shares an 8-byte hash prefix with one of the block)",
+               "C14.del_after_add_id_block_partial: the same, and no successful genesis action; MVCC and manage local data are "
+               "not part of the block model",
+               "C14.mvcc_del_after_add_id: every key except .-mvcc-.m.versionkl.<v>; non-empty state KV set (DelMVCC panics otherwise)")
+    refuted = ("C14.plugins_full_false",)
     quick_timeout = 1200
     level_text = ("Lean theorems about the model of the local-index writers (txindex, addrindex incl. the per-address "
                   "counter read-modify-write, addrfeeindex, fee, MVCC AddMVCC/DelMVCC, coins ExecLocal/ExecDelLocal, "
                   "AddTxs/DelTxs nil=>delete): for every store and every block (any repetition of addresses, self-transfers, "
                   "failed transactions, groups) whose own slots are fresh, applying the add list and then the del list "
-                  "restores every key observationally (absent = empty value = zero counter); for coins and for the whole "
+                  "restores every key observationally (absent = empty value = zero counter) - key by key: a key is restored if it was "
+                  "unused before when it is one of the block's own keys; under what a chain guarantees (full transaction keys, "
+                  "slots, fee key unused) every key except the short-hash keys STX:hash[:8] is restored, and the full statement is "
+                  "refuted on a witness and on the real code with a real 8-byte hash-prefix collision (known finding); for coins and for the whole "
                   "block the only hypothesis is that no genesis action executed successfully (impossible above height 0); the "
                   "defect S-C14 found by this check (Coins.ExecLocal counted failed transfers) was repaired in /repo (303f1d2) "
                   "and is kept as a regression witness. Tie: two real testnodes follow the same generated chain; on one of them every height "
@@ -31,8 +42,9 @@ class C14(Spec):
                   "delete path.")
     assumptions = ("dbversion != 0 (per-address counters enabled)",
                    "counter / fee-total keys hold only values written by the index code",
-                   "a block's own slots (height*MaxTxsPerBlock+index, its tx hashes incl. the 8-byte short hash, its block "
-                   "hash) are unused before it is added: guaranteed by duplicate checking and removal of all higher blocks")
+                   "a block's own slots (height*MaxTxsPerBlock+index), its full transaction keys and its block hash are unused "
+                   "before it is added: guaranteed by duplicate checking on full hashes and removal of all higher blocks (NOT the "
+                   "8-byte short-hash keys)")
 
     def runs(self, tier, seed):
         return [dict(env={"VERIF_C14_MODE": m}) for m in ("quick", "noquick", "mvcc")]
